@@ -39,6 +39,7 @@ func newPMFromDataset(options plugintypes.OperatorOptions) (plugintypes.Operator
 	if !ok {
 		return nil, fmt.Errorf("dataset %q not found", data)
 	}
+	dataset = dropEmpty(dataset)
 	builder := ahocorasick.NewAhoCorasickBuilder(ahocorasick.Opts{
 		AsciiCaseInsensitive: true,
 		MatchOnlyWholeWords:  false,
